@@ -125,6 +125,53 @@ def _multiset_chunk(args):
     return part
 
 
+def multiscale_collections(ctx):
+    """Collections with detail on many scales (boxes shrinking geometrically towards a focus):
+    the tree gets 10-25 levels deep, which no collection over a 3- or 4-value coordinate
+    alphabet can reach.  Queries: every box itself, its centre, the focus, the whole extent."""
+    import math                             # pylint: disable=import-outside-toplevel
+    out = []
+    for count in (24, 48, 64, 96) + ((128,) if ctx.thorough else ()):
+        out.append([(i, (2.0 ** -i, 2.0 ** -i, 1.1 * 2.0 ** -i, 1.1 * 2.0 ** -i))
+                    for i in range(count)])
+        out.append([(i, (-(1.5 ** -i), 3 * 1.5 ** -i, -(1.5 ** -i) + 0.2 * 1.5 ** -i, 3.3 * 1.5 ** -i))
+                    for i in range(count)])
+    for count in (20, 40):
+        out.append([(i, (2.0 ** -i, 0.0, 1.1 * 2.0 ** -i, 0.0)) for i in range(count)])   # strokes
+    for count, seed in ((40, 1), (60, 2), (60, 3)):
+        boxes = []
+        for i in range(count):
+            rad = 2.0 ** -(i * 0.8)
+            ang = 2.399963 * i * seed       # golden-angle spiral, deterministic
+            x_0, y_0 = rad * math.cos(ang), rad * math.sin(ang)
+            boxes.append((i, (x_0, y_0, x_0 + rad / 4, y_0 + rad / 4)))
+        out.append(boxes)
+    return out
+
+
+def _multiscale_chunk(collections):
+    part = core.Part()
+    for boxes in collections:
+        queries = [box for _i, box in boxes]
+        queries += [((b[0] + b[2]) / 2, (b[1] + b[3]) / 2, (b[0] + b[2]) / 2, (b[1] + b[3]) / 2)
+                    for _i, b in boxes]
+        queries += [(0.0, 0.0, 0.0, 0.0), (-5.0, -5.0, 5.0, 5.0), (0.0, 0.0, 1e-9, 1e-9),
+                    (-1e-6, -1e-6, 1e-6, 1e-6)]
+        bad, depth = check_collection(boxes, queries)
+        part.count("collections")
+        part.count("multiscale_collections")
+        part.count("queries", len(queries))
+        part.count("nontrivial")
+        part.counters["max_depth"] = max(part.counters.get("max_depth", 0), depth)
+        for clause, msg, query in bad:
+            part.violation(f"{clause}:multiscale:{len(boxes)}:{core.digest(boxes)}:{query}",
+                           msg.replace(repr(boxes), f"<{len(boxes)} boxes on geometric scales, "
+                                                    f"first {boxes[0]}, last {boxes[-1]}>")[:700],
+                           {"kind": "boxes", "boxes": [[i, list(b)] for i, b in boxes],
+                            "query": list(query) if query else None})
+    return part
+
+
 def _subset_chunk(masks):
     part = core.Part()
     for mask in masks:
@@ -147,7 +194,8 @@ def _subset_chunk(masks):
 
 
 def _dispatch(job):
-    return _multiset_chunk(job[1]) if job[0] == "multi" else _subset_chunk(job[1])
+    return {"multi": _multiset_chunk, "subset": _subset_chunk,
+            "multiscale": _multiscale_chunk}[job[0]](job[1])
 
 
 def run(ctx):
@@ -173,6 +221,8 @@ def run(ctx):
             jobs.append(("multi", (odd, chunk, size, q_odd)))
     for chunk in core.split(range(1 << len(ARRANGEMENT)), 32):
         jobs.append(("subset", chunk))
+    for chunk in core.split(multiscale_collections(ctx), 16):
+        jobs.append(("multiscale", chunk))
     part = core.fan_out(ctx, _dispatch, jobs)
     # the empty collection
     bad, _depth = check_collection([], q_small)
@@ -190,10 +240,13 @@ def run(ctx):
         "rule": f"all multisets of 1..{max_n} boxes over coordinates {{0,1,2}} (36 boxes, 9+9 "
                 "degenerate) x all 36 query boxes; multisets of 1..2(3) boxes over {0,1,2,3} x 100 "
                 "queries; a seed-derived 3-coordinate alphabet; all 4096 subsets of a 12-box "
-                "arrangement x 16 queries; the empty collection; non-trivial = collections whose "
+                "arrangement x 16 queries; collections of 20..96 (128) boxes on geometric scales "
+                "(tree depth up to max_tree_depth) queried with every box, its centre and the "
+                "focus; the empty collection; non-trivial = collections whose "
                 "index actually has subtrees; distinct identifiers even for equal boxes",
         "samples": core.rotate(part.samples, ctx.seed, 4),
         "collections": cnt.get("collections", 0),
+        "multiscale_collections": cnt.get("multiscale_collections", 0),
         "max_tree_depth": cnt.get("max_depth", 0),
         "exhaustive": True,
     }
